@@ -80,16 +80,28 @@ def _guard(fails, site_prefix, what):
 
 # --------------------------------------------------------------------------- definition level
 
-def _check_definition(carrier, pl, doc):
+def _eol(text, eol):
+    """The same text with other line terminators: `crlf` everywhere, `mixed` = CRLF on every
+    other line (no bare CR).  Python reads all of them alike; line/column numbers stay."""
+    if eol == 'lf':
+        return text
+    lines = text.split('\n')
+    return ''.join(l + ('\r\n' if (eol == 'crlf' or i % 2 == 0) else '\n')
+                   for i, l in enumerate(lines[:-1])) + lines[-1]
+
+
+def _check_definition(carrier, pl, doc, eol='lf'):
     """One program, cursor right after the opening parenthesis: params, kinds, to_string
-    round trip, name, bracket_start, docstrings, call shapes.  -> (fails, evals, classes)"""
+    round trip, name, bracket_start, docstrings, call shapes.  -> (fails, evals, classes)
+    The reference executes the very text that is analysed (line terminators included)."""
     prog = M.build_program(carrier, pl, doc)
+    prog['code'] = _eol(prog['code'], eol)
     ref = M.Reference(prog)
     fails = []
     evals = 0
     nlines = prog['code'].count('\n')
     call = prog['callee'] + '('
-    what0 = '%s:%s:%s' % (carrier, M.plist_id(pl), doc)
+    what0 = '%s:%s:%s' % (carrier, M.plist_id(pl), doc) + ('' if eol == 'lf' else ':' + eol)
     want = M.describe(ref.sig, ref.has_return)
     base_detail = {'definition': prog['code'], 'call': call, 'inspect.signature': str(ref.sig)}
 
@@ -99,7 +111,7 @@ def _check_definition(carrier, pl, doc):
         fails.append({'site': site, 'what': what0, 'detail': d})
 
     # one module: the closed call on one line, the call being typed at the end of the file
-    script = _script(prog['code'] + call + ')\n' + call)
+    script = _script(prog['code'] + call + (')\n' if eol == 'lf' else ')\r\n') + call)
     for ending, line in ((')', nlines + 1), ('', nlines + 2)):
         run = _guard(fails, '', what0)
         evals += 1
@@ -220,7 +232,7 @@ def _work_definitions(task):
     for carrier in task['carriers']:
         if not M.carrier_applicable(carrier, pl):
             continue
-        fails, evals, _p, _r = _check_definition(carrier, pl, task['doc'])
+        fails, evals, _p, _r = _check_definition(carrier, pl, task['doc'], task.get('eol', 'lf'))
         out['fails'] += fails
         out['evals'] += evals
         out['cells'] += 2
@@ -468,7 +480,17 @@ def _levels(tier):
             pl = M.make_plist(sk, M.full_decoration(sk) if len(sk) == 1 else None)
             tasks.append({'id': 'doc:%s:%s' % (doc, M.plist_id(pl)), 'pl': pl,
                           'carriers': list(M.CARRIERS), 'doc': doc})
-    lv.append(('docstring layouts(%d) x 9 carriers x 3 lists' % len(M.DOC_KEYS),
+    # ... and with CRLF / mixed CRLF+LF line terminators of the whole source (the implicit
+    # concatenation layout, a known finding whatever the terminator, is left to the LF run)
+    for eol in ('crlf', 'mixed'):
+        for sk in ((), ('pk',), ('po', 'pk', 'va', 'ko')):
+            for doc in plain_keys:
+                pl = M.make_plist(sk, M.full_decoration(sk) if len(sk) == 1 else None)
+                tasks.append({'id': 'doc:%s:%s:%s' % (doc, M.plist_id(pl), eol), 'pl': pl,
+                              'carriers': ['fn', 'meth', 'init', 'wraps', 'pw'], 'doc': doc,
+                              'eol': eol})
+    lv.append(('docstring layouts(%d) x 9 carriers x 3 lists (LF); %d layouts x fn/meth/init/wraps/'
+               'pw x 3 lists x {CRLF, mixed CRLF+LF}' % (len(M.DOC_KEYS), len(plain_keys)),
                'jv.props.c11:_work_definitions', tasks))
     # 3. index cells
     tasks = []
@@ -646,6 +668,8 @@ def run(ctx):
         'enumerated (no legal Python signature describes them)',
         'docstring(): a signature line may show the definition as written (self kept) or as '
         'bound',
+        'line terminators: LF everywhere; the docstring family additionally with CRLF and with '
+        'mixed CRLF+LF sources (no bare CR), executed and analysed as the very same text',
     ]
 
 
